@@ -102,6 +102,9 @@ class FnSpec:
     def __init__(self, relfile, qualname, fn, label=None, trusted=False, external=False, cls=None, name=None, why_trusted=None, hints=None):
         self.relfile, self.qualname, self.fn, self.label = relfile, qualname, fn, label
         self.hints = hints  # names of the lemmas whose closed forms this function's VCs may use (None: all)
+        self.slice = None  # (start anchor, end anchor): verify only that statement range
+        self.slice_allows_return = False
+        self.allow_varargs = False
         self.trusted, self.external, self.why_trusted = trusted, external, why_trusted
         self.name = name or qualname.split(".")[-1]
         parts = qualname.split(".")
@@ -144,13 +147,34 @@ class Property:
         self.class_tag = z3.Function("class_of", Ref, z3.IntSort())
         self._class_ids = {}
         self.closed_named = {}  # "<lemma>.<step>" -> closed formula proven by that lemma VC
+        self.record_defaults = {}
+        self.field_owners = {}  # field -> classes that have it (for hasattr); absent: every class
+        self.by_name_lists = set()  # element classes whose lists are EvalableLists (lookup by .name)
         self.oracle = None  # module name under /verif/oracles
         self.mutants = []
 
     # --- registration -------------------------------------------------------------
-    def fn(self, relfile, qualname, **kw):
+    def fn(self, relfile, qualname, allow_varargs=False, **kw):
         def deco(f):
-            self.specs.append(FnSpec(relfile, qualname, f, **kw))
+            s = FnSpec(relfile, qualname, f, **kw)
+            s.allow_varargs = allow_varargs  # *args / **kwargs parameters: verified for empty extras
+            self.specs.append(s)
+            return f
+
+        return deco
+
+    def slice(self, relfile, qualname, label, start, end, allows_return=False, **kw):
+        """Contract on a statement range of a (large) function.  The range is located on every
+        run by source anchors; the contract's c.var(...) declarations are the variables live
+        at its entry (their assumed properties are the slice's precondition), postconditions
+        receive the variables at its end (res["name"]).  A slice is never called."""
+
+        def deco(f):
+            s = FnSpec(relfile, qualname, f, label=label, **kw)
+            s.slice = (start, end)
+            s.slice_allows_return = allows_return
+            s.name = f"{qualname}#{label}"  # not callable by name
+            self.specs.append(s)
             return f
 
         return deco
@@ -159,7 +183,7 @@ class Property:
         """Assumed contract of a function outside the verified code (numpy, joblib ...)."""
 
         def deco(f):
-            self.specs.append(FnSpec("<external>", name, f, trusted=True, external=True, cls=cls, why_trusted=why))
+            self.specs.append(FnSpec("<external>", name, f, trusted=True, external=True, cls=cls, why_trusted=why, name=name))
             return f
 
         return deco
@@ -167,8 +191,11 @@ class Property:
     def field(self, name, typ):
         self.fields[name] = typ
 
-    def record(self, cls, fields):
+    def record(self, cls, fields, defaults=None):
+        """A class whose constructor just stores its keyword arguments (pydantic model /
+        dataclass); `defaults`: field -> value (or callable(ex) -> value) for omitted ones."""
         self.records[cls] = list(fields)
+        self.record_defaults[cls] = dict(defaults or {})
         self.classes.add(cls)
 
     def hint(self, name, formula, lean=None):
@@ -180,6 +207,12 @@ class Property:
             return f
 
         return deco
+
+    def class_has_field(self, cls, field):
+        owners = self.field_owners.get(field)
+        if owners is None or cls is None:
+            return True
+        return any(cls in self.subclasses(o) for o in owners)
 
     def lemma_instance(self, key, *terms):
         """Instance of the closed lemma proven under `key` ("<lemma>.<step name>")."""
@@ -370,6 +403,11 @@ class FnCtx:
         self.arg_order.append(name)
         return v
 
+    def var(self, name, typ):
+        """A variable live at the entry of a slice (fresh symbol)."""
+        assert self.mode == "verify"
+        return self.arg(name, typ)
+
     def _conform(self, v, typ, name):
         v = lift(v)
         if isinstance(typ, T._Scalar):
@@ -408,6 +446,14 @@ class FnCtx:
             if isinstance(v, EmptyDict):
                 return empty_map(typ.key.shape(), typ.val.shape(), typ.ordered)
         return v
+
+    def ghost(self, name, sort, definition):
+        """A ghost constant *defined* by `definition(g)` -- a formula that some value of g
+        satisfies in every state (e.g. "g is the index of the element named E, or -1 if there
+        is none").  It is assumed in both modes (it is a definition, not a requirement)."""
+        g = z3.Const(fresh_name("ghost." + name), sort)
+        self.ex.assume(definition(g))
+        return g
 
     def applies(self, cond: bool):
         """In call mode: this contract covers the call only if `cond` (a Python bool computed
